@@ -54,9 +54,12 @@ Section Mid.
   (* the Observe values that count at that point: a DELETE forgets the resource's values at
      once; the values an event sends itself count from its last call on *)
   Definition ps_ghost_at (e : ps_event) (m : ps_mem) (G : list ps_send) (j : nat) : list ps_send :=
-    match e with
-    | PsEvDel _ => match j with O => G | _ => ps_ghost alloc e m G end
-    | _ => if (length (ps_ev_calls alloc c e m) <=? j)%nat then ps_ghost alloc e m G else G
+    match j with
+    | O => G
+    | _ => match e with
+           | PsEvDel _ => ps_ghost alloc e m G
+           | _ => if (length (ps_ev_calls alloc c e m) <=? j)%nat then ps_ghost alloc e m G else G
+           end
     end.
 
   Lemma ps_invw_swap : forall m A1 G1 A2 G2,
@@ -136,5 +139,58 @@ Section Mid.
     intros name m' G' calls. induction calls as [|cl calls IH]; intros A Hn Hg Hi Hc; [exact Hi|].
     inversion Hc; subst. cbn [ps_abs_calls]. apply IH; try assumption.
     eapply ps_invw_harmless; eassumption.
+  Qed.
+
+  Lemma ps_forall_firstn : forall X (P : X -> Prop) j l, Forall P l -> Forall P (firstn j l).
+  Proof.
+    intros X P j. induction j as [|j IH]; intros l H; [constructor|].
+    destruct l as [|x l]; [constructor|]. inversion H; subst. cbn [firstn]. constructor; [assumption|apply IH; assumption].
+  Qed.
+
+  Notation inv_event := (ps_inv_event app req alloc c m0 alloc_fresh alloc_len cfg_proto cfg_listen freq_pos freq_small).
+
+  (* delete: from the first call on, the memory state without the resource *)
+  Lemma ps_mid_del : forall name m A G r j,
+    inv m A G -> ps_evt_ok app req c (PsEvDel name) m -> ps_find name m = Some r ->
+    invw (ps_remove name m)
+         (ps_abs_calls (firstn j (ps_ev_calls alloc c (PsEvDel name) m)) A)
+         (ps_ghost alloc (PsEvDel name) m G).
+  Proof.
+    intros name m A G r j Hi Hok Hf.
+    pose proof (ps_inv_invw (fun _ _ => 0) app req c m0 m A G Hi) as Hw.
+    pose proof (iv_names _ _ _ _ _ _ _ Hi) as Hnames.
+    assert (Hnone : ps_find name (ps_remove name m) = None) by (apply ps_find_remove_same; exact Hnames).
+    assert (Hfo : forall n, n <> name -> ps_find n (ps_remove name m) = ps_find n m)
+      by (intros; apply ps_find_remove_other; assumption).
+    assert (Hne_of : forall n r', ps_find n (ps_remove name m) = Some r' -> n <> name)
+      by (intros n r' E X; subst n; rewrite Hnone in E; discriminate).
+    assert (Hiff : forall n s, ps_insub (ps_remove name m) n s <-> n <> name /\ ps_insub m n s)
+      by (intros; apply ps_insub_remove; exact Hnames).
+    unfold ps_ghost. rewrite Hf.
+    set (G' := filter (fun x : ps_send => negb (ps_beq name (fst (fst (fst x))))) G).
+    assert (Hg : forall n tu tok v, In (n, tu, tok, v) G' -> n <> name).
+    { intros n tu tok v Hin. apply filter_In in Hin. destruct Hin as [_ Hb]. cbn [fst] in Hb.
+      intro X. subst n. rewrite ps_beq_refl in Hb. discriminate. }
+    apply (ps_invw_harmless_all name); try assumption.
+    - (* the files of the event's start already contain the smaller memory state *)
+      destruct Hw as [W1 W2 W3 W4 W5 W6 W7 W8 W9 W10]. constructor; try assumption.
+      + intros n r' Hf' Ho'. rewrite (Hfo n (Hne_of n r' Hf')) in Hf'. apply (W3 n r' Hf' Ho').
+      + intros n s Hs. apply Hiff in Hs. destruct Hs as [Hne Hs]. destruct (W4 n s Hs) as (Hreq & r' & Hf' & Ho').
+        split; [exact Hreq|]. exists r'. rewrite (Hfo n Hne). split; assumption.
+      + intros n s Hs. apply Hiff in Hs. apply (W5 n s (proj2 Hs)).
+      + intros n tu tok v Hin. apply filter_In in Hin. apply (W10 n tu tok v (proj1 Hin)).
+    - apply ps_forall_firstn. cbn [ps_ev_calls]. rewrite Hf. apply Forall_app. split.
+      + destruct (ps_del_bump r && (ps_del_value r mod psc_freq c =? 0)); [|constructor].
+        constructor; [|constructor]. cbn [ps_harmless]. split; [reflexivity|].
+        destruct (iv_res _ _ _ _ _ _ _ Hi name r Hf) as (Hnok & Hrange & _).
+        cbn [ps_evt_ok] in Hok. specialize (Hok r Hf).
+        cbn [ps_call_wf]. split; [exact Hnok|].
+        unfold ps_del_value, ps_next_observe, ps_bound in *.
+        destruct (ps_del_bump r); [rewrite Z.mod_small by lia|]; lia.
+      + constructor; [reflexivity|]. constructor; [reflexivity|].
+        apply Forall_forall. intros cl Hcl. apply in_map_iff in Hcl. destruct Hcl as (s & <- & Hs).
+        cbn [ps_harmless]. intros n s' Hs' Ek. apply Hiff in Hs'. destruct Hs' as [Hne Hs'].
+        destruct (iv_key _ _ _ _ _ _ _ Hi n s' name s Hs') as [X _]; [exists r; split; assumption|exact Ek|].
+        contradiction.
   Qed.
 End Mid.
